@@ -160,7 +160,7 @@ def probe_pressure_range(ds, cfg, wd):
     s = copy.copy(DEFAULT_SETTINGS)
     s.update(cfg["qha"]["settings"])
     qc = QHACalculator(s)
-    qc.read_input(read_energy(os.path.join(wd, "input01")))
+    qc.read_input(read_energy(os.path.join(wd, cfg["qha"]["input"])))
     qc.refine_grid()
     p = qc.p_tv_gpa
     return float(p[:, 1].max()), float(p[:, -1].min()), p
@@ -189,6 +189,8 @@ def write_dataset(ds, cfg, wd, settings_name="settings.yaml", column_spelling=No
                   q_order=None, mode_perm=None, weight_scale=1.0, volume_order=None, table_scale=1.0, swap_columns=None):
     """Write the three files.  The keyword arguments re-present the same physical data (C13)."""
     os.makedirs(wd, exist_ok=True)
+    for rel in (cfg["qha"]["input"], cfg["elast"]["input"]):
+        os.makedirs(os.path.dirname(os.path.join(wd, rel)), exist_ok=True)
     nv, nq, np_ = ds.freqs.shape
     q_order = list(range(nq)) if q_order is None else list(q_order)
     volume_order = list(range(nv)) if volume_order is None else list(volume_order)
